@@ -14,6 +14,12 @@ struct ErrSpec {
     severity: &'static str,
     msg: String,
     rendered: String,
+    /// fragments the Debug form of the parsed error has to contain (type, tag, severity, app-tag, path)
+    expect: Vec<String>,
+}
+
+fn camel(s: &str) -> String {
+    s.split('-').map(|w| { let mut c = w.chars(); c.next().map(|f| f.to_ascii_uppercase().to_string() + c.as_str()).unwrap_or_default() }).collect()
 }
 
 #[derive(Clone, Debug)]
@@ -24,6 +30,8 @@ enum Item {
     Comment,
     Results(Vec<Item>),
     Count(usize),
+    /// a Junos-native error element in the Junos XML namespace (not an <rpc-error>)
+    Foreign,
 }
 
 const TYPES: &[&str] = &["transport", "rpc", "protocol", "application"];
@@ -41,17 +49,28 @@ fn gen_err(r: &mut Prng, uniq: &mut u32) -> ErrSpec {
     let msg = format!("m-{}-{}", *uniq, r.next_u64() % 100_000);
     let mut s = String::from("<rpc-error>");
     // field order is free in practice; vary it
+    let ty = *r.pick(TYPES);
+    let tag = *r.pick(TAGS);
+    let mut expect = vec![format!("error_type: {}", camel(ty)), format!("error_tag: {}", camel(tag)), format!("severity: {}", camel(severity))];
     let mut fields: Vec<String> = vec![
-        format!("<error-type>{}</error-type>", r.pick(TYPES)),
-        format!("<error-tag>{}</error-tag>", r.pick(TAGS)),
+        format!("<error-type>{ty}</error-type>"),
+        format!("<error-tag>{tag}</error-tag>"),
         format!("<error-severity>{severity}</error-severity>"),
         format!("<error-message>{msg}</error-message>"),
     ];
     if r.chance(1, 3) {
-        fields.push(format!("<error-app-tag>app-{}</error-app-tag>", r.below(100)));
+        let a = format!("app-{}-{}", r.below(100), *uniq);
+        fields.push(format!("<error-app-tag>{a}</error-app-tag>"));
+        expect.push(format!("\"{a}\""));
+    } else {
+        expect.push("app_tag: None".into());
     }
     if r.chance(1, 3) {
-        fields.push("<error-path>/a/b[c='d']</error-path>".to_string());
+        let pth = format!("/a/b[c='d{}']", *uniq);
+        fields.push(format!("<error-path>{pth}</error-path>"));
+        expect.push(format!("\"{pth}\""));
+    } else {
+        expect.push("path: None".into());
     }
     if r.chance(1, 3) {
         let mut info = String::from("<error-info>");
@@ -70,7 +89,7 @@ fn gen_err(r: &mut Prng, uniq: &mut u32) -> ErrSpec {
         s.push_str(f);
     }
     s.push_str("</rpc-error>");
-    ErrSpec { severity, msg, rendered: s }
+    ErrSpec { severity, msg, rendered: s, expect }
 }
 
 fn gen_items(r: &mut Prng, uniq: &mut u32, inside_results: bool, kind: usize) -> Vec<Item> {
@@ -78,6 +97,13 @@ fn gen_items(r: &mut Prng, uniq: &mut u32, inside_results: bool, kind: usize) ->
     let n = r.range(0, 4);
     for _ in 0..n {
         let c = r.below(10);
+        // Junos repeats an identical <rpc-error> for every pass over a failing statement: each is an
+        // error of the reply and has to be reported
+        if let (Some(Item::Err(prev)), true) = (v.last(), r.chance(1, 5)) {
+            let again = Item::Err(prev.clone());
+            v.push(again);
+            continue;
+        }
         v.push(match c {
             0..=4 => Item::Err(gen_err(r, uniq)),
             5 | 6 => {
@@ -90,6 +116,7 @@ fn gen_items(r: &mut Prng, uniq: &mut u32, inside_results: bool, kind: usize) ->
             7 => Item::Comment,
             8 if inside_results => Item::Count(r.below(4)),
             8 if kind == 3 => Item::Results(gen_items(r, uniq, true, kind)),
+            8 | 9 if kind == 2 => Item::Foreign,
             _ => Item::Ok,
         });
     }
@@ -116,6 +143,7 @@ fn render(items: &[Item], out: &mut String) {
             Item::Ok => out.push_str("<ok/>"),
             Item::Data => out.push_str("<data>payload</data>"),
             Item::Comment => out.push_str("<!-- c -->"),
+            Item::Foreign => out.push_str("<xnm:error xmlns:xnm=\"http://xml.juniper.net/xnm/1.1/xnm\"><xnm:message>failed</xnm:message></xnm:error>"),
             Item::Count(n) => out.push_str(&format!("<load-error-count>{n}</load-error-count>")),
             Item::Results(inner) => {
                 out.push_str("<load-configuration-results>");
@@ -143,7 +171,8 @@ fn positive(items: &[Item], kind: usize) -> bool {
         2 => {
             let mut e = Vec::new();
             all_errs(items, &mut e);
-            e.is_empty()
+            // "an empty reply": nothing but (possibly) an <ok/>
+            e.is_empty() && !items.iter().any(|i| matches!(i, Item::Foreign))
         }
         _ => items.iter().any(|i| match i {
             Item::Results(inner) => inner.iter().any(|j| matches!(j, Item::Ok)),
@@ -161,6 +190,7 @@ fn shape(items: &[Item]) -> String {
             Item::Ok => s.push('o'),
             Item::Data => s.push('d'),
             Item::Comment => {}
+            Item::Foreign => s.push('X'),
             Item::Count(_) => s.push('#'),
             Item::Results(inner) => {
                 s.push('[');
@@ -230,13 +260,13 @@ pub fn run(cfg: &Cfg) -> i32 {
             Some(format!("<rpc-reply xmlns=\"{BASE_NS}\" message-id=\"{}\">{body}</rpc-reply>{MARKER}", id.unwrap_or("0")).into_bytes())
         };
         // (result is Ok?, error debug if RpcError, other error text)
-        let (is_ok, rpc_errs, other): (bool, Option<String>, Option<String>) = {
+        let (is_ok, rpc_errs, other): (bool, Option<Vec<String>>, Option<String>) = {
             macro_rules! go {
                 ($ex:expr) => {
                     match $ex {
                         Exchange::Reply { result: Ok(_), .. } => (true, None, None),
                         Exchange::Reply { result: Err(netconf::Error::RpcError(errs)), .. } => {
-                            (false, Some(errs.iter().map(|e| format!("{e:?}")).collect::<Vec<_>>().join("\n")), None)
+                            (false, Some(errs.iter().map(|e| format!("{e:?}")).collect::<Vec<_>>()), None)
                         }
                         Exchange::Reply { result: Err(e), .. } => (false, None, Some(format!("{e:?}"))),
                         other => {
@@ -289,19 +319,35 @@ pub fn run(cfg: &Cfg) -> i32 {
             );
         }
         if let Some(d) = &rpc_errs {
-            let got = messages_in(d);
+            let got = messages_in(&d.join("\n"));
             let want: Vec<String> = errs.iter().map(|e| e.msg.clone()).collect();
             if got != want {
+                let adjacent_dup = errs.windows(2).any(|w| w[0].rendered == w[1].rendered);
                 rep.violation(
-                    &format!("{}:reported-errors-differ", KINDS[kind]),
+                    &format!("{}:reported-errors-differ{}", KINDS[kind], if got.len() < want.len() && adjacent_dup { ":repeated-error-dropped" } else { "" }),
                     &format!("reported errors {got:?} are not the reply's errors {want:?}"),
                     wit(),
                 );
+            } else if d.len() == errs.len() {
+                if errs.windows(2).any(|w| w[0].rendered == w[1].rendered) {
+                    rep.count("replies_with_repeated_identical_error");
+                }
+                for (dbg, e) in d.iter().zip(&errs) {
+                    rep.count("error_fields_compared");
+                    if let Some(miss) = e.expect.iter().find(|x| !dbg.contains(x.as_str())) {
+                        rep.violation(
+                            &format!("{}:reported-error-field-differs", KINDS[kind]),
+                            &format!("reported error {dbg} does not carry {miss:?} of the reply's error {}", e.rendered),
+                            wit(),
+                        );
+                        break;
+                    }
+                }
             }
         }
         if rep.samples.len() < rep.max_samples && errs.len() >= 2 {
             rep.sample(json!({"reply_type": KINDS[kind], "document": clip(&body, 600), "ok": is_ok,
-                "rpc_error_list": rpc_errs.as_ref().map(|d| messages_in(d)), "other_error": other.as_ref().map(|o| clip(o, 200))}));
+                "rpc_error_list": rpc_errs.as_ref().map(|d| messages_in(&d.join("\n"))), "other_error": other.as_ref().map(|o| clip(o, 200))}));
         }
     }
     rep.finish()
